@@ -74,6 +74,7 @@ type vTimer struct {
 	deadline int64
 	armed    bool
 	seq      int
+	period   int64 // > 0: a ticker, re-armed at every tick
 }
 
 func (m *Machine) vtimerOf(p *Ptr) *vTimer {
@@ -87,6 +88,10 @@ func (m *Machine) vtimerFire(t *vTimer) {
 	t.armed = false
 	if t.deadline > m.vnow {
 		m.vnow = t.deadline
+	}
+	if t.period > 0 {
+		t.deadline += t.period
+		t.armed = true
 	}
 	if len(t.ch.buf) < t.ch.cap {
 		t.ch.buf = append(t.ch.buf, sendItem{v: m.zero(t.ch.et)})
@@ -109,6 +114,10 @@ func (m *Machine) fireOnIdle() bool {
 	t := m.vtimerEarliest()
 	if t == nil {
 		return false
+	}
+	m.idleFires++
+	if m.idleFires > 10000 {
+		panic(m.unsupported("virtual time diverges: more than 10000 timer firings with every goroutine blocked"))
 	}
 	m.vtimerFire(t)
 	return true
@@ -150,6 +159,49 @@ func init() {
 		m.vtimers[obj] = t
 		m.vtimerList = append(m.vtimerList, t)
 		return &Ptr{Obj: obj}
+	}
+	intrinsics["time.NewTicker"] = func(m *Machine, th *Thread, fn *ssa.Function, a []Value, site ssa.Instruction) Value {
+		d := m.intArg(a[0])
+		if d <= 0 {
+			m.goPanic("non-positive interval for NewTicker")
+		}
+		tickerT := fn.Signature.Results().At(0).Type().(*types.Pointer).Elem()
+		obj := m.newObj(tickerT, m.zero(tickerT), "time.NewTicker")
+		st := tickerT.Underlying().(*types.Struct)
+		var ch *ChanV
+		for i := 0; i < st.NumFields(); i++ {
+			if st.Field(i).Name() == "C" {
+				ct := types.NewChan(types.SendRecv, st.Field(i).Type().Underlying().(*types.Chan).Elem())
+				ch = m.newChan(1, ct)
+				m.store((&Ptr{Obj: obj}).sub(i), ch)
+			}
+		}
+		if m.vtimers == nil {
+			m.vtimers = map[*Obj]*vTimer{}
+		}
+		t := &vTimer{ch: ch, deadline: m.vnow + d, armed: true, seq: len(m.vtimerList), period: d}
+		m.vtimers[obj] = t
+		m.vtimerList = append(m.vtimerList, t)
+		return &Ptr{Obj: obj}
+	}
+	intrinsics["(*time.Ticker).Stop"] = func(m *Machine, th *Thread, fn *ssa.Function, a []Value, site ssa.Instruction) Value {
+		p, _ := a[0].(*Ptr)
+		if t := m.vtimerOf(p); t != nil {
+			t.armed = false
+			return nil
+		}
+		panic(m.unsupported("(*time.Ticker).Stop on a ticker the engine did not create"))
+	}
+	intrinsics["(*time.Ticker).Reset"] = func(m *Machine, th *Thread, fn *ssa.Function, a []Value, site ssa.Instruction) Value {
+		p, _ := a[0].(*Ptr)
+		t := m.vtimerOf(p)
+		if t == nil {
+			panic(m.unsupported("(*time.Ticker).Reset on a ticker the engine did not create"))
+		}
+		t.period = m.intArg(a[1])
+		t.deadline = m.vnow + t.period
+		t.armed = true
+		return nil
 	}
 	intrinsics["(*time.Timer).Reset"] = func(m *Machine, th *Thread, fn *ssa.Function, a []Value, site ssa.Instruction) Value {
 		p, _ := a[0].(*Ptr)
